@@ -9,11 +9,11 @@ import (
 
 	"github.com/oasisprotocol/oasis-core/go/common/cbor"
 	"github.com/oasisprotocol/oasis-core/go/common/crypto/hash"
-	vaultState "github.com/oasisprotocol/oasis-core/go/consensus/cometbft/apps/vault/state"
-	vault "github.com/oasisprotocol/oasis-core/go/vault/api"
 	stakingState "github.com/oasisprotocol/oasis-core/go/consensus/cometbft/apps/staking/state"
+	vaultState "github.com/oasisprotocol/oasis-core/go/consensus/cometbft/apps/vault/state"
 	staking "github.com/oasisprotocol/oasis-core/go/staking/api"
 	"github.com/oasisprotocol/oasis-core/go/storage/mkvs"
+	vault "github.com/oasisprotocol/oasis-core/go/vault/api"
 
 	"verif/sim/core"
 )
